@@ -32,3 +32,7 @@ def run(chk, tier):
     E.lazy_rendering(chk, F, 'R05.7', 'std')
     from props import c08
     c08.eval_wiring(chk, F, 'R05.8', 'std')
+    # R05.10 'returns the answer's result unchanged' for borrowed return kinds: the only way an answer can produce a borrow is make_ref,
+    # which must lend exactly the value it was given (shared with C13: push_node returns the node inserted for this call's value)
+    from props import c13
+    c13.push_node(chk, F, 'R05.10', 'std')
